@@ -17,7 +17,7 @@ PAIRAN    (C18, C19)   a loop over the annotations of one kind is bounded by the
 """
 import re
 from .facts import kind, strip, walk, path, render, int_val, is_int, calls_in, mem_field, base_var
-from .codec import ast_walk, ast_calls
+from .codec import ast_walk, ast_calls, ast_exprs
 from .flow import PathAnalysis, fail_values, classify_ret
 
 
@@ -260,6 +260,7 @@ AN_KIND_VAL = {"AN_DATA_LABEL": 0, "AN_DATA_DESC": 1, "AN_FILE_LABEL": 2, "AN_FI
 def rule_pair_an(ctx):
     prog = ctx.prog
     n = 0
+    n_obj = 0
     for f in prog.funcs:
         if not any(d in f.rel for d in ("mfhdf/hrepack/", "mfhdf/hdp/", "mfhdf/hdiff/")):
             continue
@@ -271,7 +272,17 @@ def rule_pair_an(ctx):
                     a = strip(c[3][pos])
                     if kind(a) == "addr" and kind(strip(a[1])) == "var":
                         kinds[strip(a[1])[1]] = AN_KIND_BY_POS[pos]
-        if not kinds:
+        # per-object counts: v = ANnumann(an, type, tag, ref); lists filled by ANannlist
+        numann = set()
+        lists = set()
+        for _b, _i, _s, x in f.nodes(True):
+            if x[0] == "asg" and x[1] == "=" and kind(strip(x[2])) == "var":
+                r = strip(x[3])
+                if kind(r) == "call" and r[1] == "ANnumann":
+                    numann.add(strip(x[2])[1])
+            if x[0] == "call" and x[1] == "ANannlist" and len(x[3]) >= 5 and base_var(x[3][4]):
+                lists.add(base_var(x[3][4]))
+        if not kinds and not numann:
             continue
         loops = []
 
@@ -285,6 +296,22 @@ def rule_pair_an(ctx):
             if c is None or kind(c) != "bin" or c[1] not in ("<", "<=") or kind(strip(c[2])) != "var" or kind(strip(c[3])) != "var":
                 continue
             iv, bv = strip(c[2])[1], strip(c[3])[1]
+            if bv in numann:
+                # the count of one object's annotations bounds positions in that object's list (ANannlist), never the
+                # file-wide positions ANselect takes
+                n_obj += 1
+                key = "PAIRAN:%s:%s" % (f.name, bv)
+                sel = [x for x in ast_calls(lp[4]) if x[1] == "ANselect" and len(x[3]) >= 3 and kind(strip(x[3][1])) == "var" and strip(x[3][1])[1] == iv]
+                idx = [x for e in ast_exprs(lp[4]) for x in walk(e, True) if x[0] == "idx" and base_var(x[1]) in lists and kind(strip(x[2])) == "var" and strip(x[2])[1] == iv]
+                used = [x for x in ast_calls(lp[4]) if x[1] in ("ANreadann", "ANannlen", "ANwriteann", "ANget_tagref", "ANid2tagref")]
+                if sel and not used:
+                    ctx.excepted("PAIRAN", key, f.where(sel[0][5]), "the annotation selected by position is only opened and closed, nothing is read from it (hdiff does not compare annotations)")
+                elif sel:
+                    ctx.violated("PAIRAN", key, f.where(sel[0][5]), "the loop runs over the `%s` annotations of one object (ANnumann) but selects by file-wide position (ANselect(.., %s, ..)): "
+                                 "it handles the first annotations of the file, not those of the object" % (bv, iv))
+                elif idx:
+                    ctx.holds("PAIRAN", key, f.where(), "loop over `%s` indexes the list ANannlist filled for the same object" % bv, nontrivial=True)
+                continue
             if bv not in kinds:
                 continue
             sel = [x for x in ast_calls(lp[4]) if x[1] == "ANselect" and len(x[3]) >= 3 and kind(strip(x[3][1])) == "var" and strip(x[3][1])[1] == iv and is_int(x[3][2])]
@@ -300,6 +327,7 @@ def rule_pair_an(ctx):
             else:
                 ctx.holds("PAIRAN", key, f.where(), "loop over `%s` selects %s annotations" % (bv, kinds[bv]), nontrivial=True)
     ctx.floor("PAIRAN", 4, n, "(annotation loops bounded by an ANfileinfo count)")
+    ctx.floor("PAIRAN", 1, n_obj, "(annotation loops bounded by an ANnumann count)")
     return n
 
 
@@ -332,4 +360,50 @@ def rule_window_test(ctx):
                 ctx.violated("WINDOW", key, f.where(s.get("l")), "`%s` does not test the half-open window [%s, %s): it uses `%s`/`%s` where `%s`/`%s` is required, so one boundary position is served from "
                              "a buffer that does not hold it (or is refetched needlessly while dirty data is pending)" % (render(x)[:100], base, render(hi)[:40], l[1], r[1], want[0], want[1]))
     ctx.floor("WINDOW", 1, n, "(window membership tests)")
+    return n
+
+
+# ---------------------------------------------------------------------------------------------------------------------
+OPTION_SIBLINGS = [("hrepack_addcomp", "hrepack_addchunk", {"all_comp": "all_X", "all_chunk": "all_X"})]
+
+
+def rule_option_siblings(ctx):
+    """OPTSIB (C18): the -t and -c option handlers of hrepack accept the same object lists (a comma separated list of names, or
+    '*' alone).  The tests they apply to the list — every `if` that mentions the '*'-flag or the number of names — must be the
+    same up to the comp/chunk renaming; a handler with a stricter or looser test rejects or accepts lists its sibling treats
+    the other way."""
+    prog = ctx.prog
+    n = 0
+    for a, b, ren in OPTION_SIBLINGS:
+        fa, fb = prog.func(a), prog.func(b)
+        key = "OPTSIB:%s/%s" % (a, b)
+        if fa is None or fb is None:
+            ctx.unrecognised("OPTSIB", key, "-", "option handler not found")
+            continue
+
+        def conds(f):
+            out = []
+
+            def vis(nn, st):
+                if nn[0] == "if":
+                    r = render(strip(nn[1]))
+                    for k, v in ren.items():
+                        r = r.replace(k, v)
+                    if "all_X" in r or re.search(r"\bi [<>]", r):
+                        out.append((r, nn[4] if len(nn) > 4 else f.line))
+                return True
+            ast_walk(f.raw.get("ast"), vis)
+            return out
+        ca, cb = conds(fa), conds(fb)
+        n += len(ca)
+        if [c for c, _ in ca] == [c for c, _ in cb]:
+            ctx.holds("OPTSIB", key, fb.where(), "%d list tests, identical up to renaming: %s" % (len(ca), "; ".join(c for c, _ in ca)[:120]), nontrivial=True)
+        else:
+            d = [(x, y) for x, y in zip(ca, cb) if x[0] != y[0]]
+            if d:
+                (x, lx), (y, ly) = d[0]
+                ctx.violated("OPTSIB", key, fb.where(ly), "%s tests `%s` where %s tests `%s`: one of the two handlers rejects (or accepts) an object list the other treats the opposite way" % (b, y, a, x))
+            else:
+                ctx.violated("OPTSIB", key, fb.where(), "%s applies %d tests to the object list, %s applies %d" % (a, len(ca), b, len(cb)))
+    ctx.floor("OPTSIB", 2, n, "(object-list tests in the option handlers)")
     return n
